@@ -10,6 +10,7 @@ descriptions of the operands of one call.
 import copy
 import pickle
 import traceback
+import warnings
 
 import numpy as np
 import sympy
@@ -708,7 +709,10 @@ def run_call(fn, w, op):
     unyt / numpy / sympy are outcomes; exceptions raised by harness code are
     harness errors."""
     try:
-        res = fn(w, op)
+        with warnings.catch_warnings():
+            warnings.simplefilter("ignore")
+            with np.errstate(all="ignore"):
+                res = fn(w, op)
     except Skip:
         raise
     except HarnessError:
@@ -763,6 +767,8 @@ def cold_eval(req):
         w.cold_operands[f] = rebuild_operand(d, w)
     op = req["op"]
     k = op["k"]
+    if k == "unit_batch":
+        return cold_unit_batch(req)
     if k in EDITS:
         node = w.node(op)
         before = dict(node.reg.lut)
@@ -780,6 +786,29 @@ def cold_eval(req):
     if (k, op.get("how")) in INPLACE_TARGET or k == "simplify":
         out["target"] = describe(w.cold_operands.get("x"), w)
     return out
+
+
+def cold_unit_batch(req):
+    """End-of-run resolution digest: many unit strings against one node's
+    contents in ONE pristine child.  Each string still meets a registry with
+    no history: a fresh registry is built from the model for every string
+    (for the default node: the import-time string cache is put back), and
+    every lru memo table is cleared in between."""
+    unyt, lt, dims, uo, ur, us = _U()
+    nw = req["nodes"][0]
+    saved = dict(ur.default_unit_registry._unit_object_cache) if nw["kind"] == "default" else None
+    outs = []
+    for s in req["op"]["strings"]:
+        w = World(cold=True)
+        reg, model = build_registry(nw)
+        if saved is not None and not nw["set"]:
+            reg._unit_object_cache.clear()
+            reg._unit_object_cache.update(saved)
+        w.nodes.append(Node(nw["id"], nw["kind"], reg, model, nw["usys"]))
+        seams.clear_lru()
+        out, _ = run_call(op_unit, w, {"k": "unit", "node": nw["id"], "h": 0, "s": s})
+        outs.append(out)
+    return {"batch": outs}
 
 
 # ---------------------------------------------------------------- audits
